@@ -12,8 +12,8 @@ THEOREM = ("Ufo2ft.C14.C14_report / C14_footprint / C14_holds / C14_exclusive / 
            "C14_ifootprint / C14_ireport / C14_iholds / C14_istateless / C14_run_report / C14_run_refresh / "
            "C14_run_footprint / C14_run_route / C14_run_holds / dc_footprint / dc_report / dc_holds / dc_source_glyphs / "
            "dottedCircle_writes_source / ex_footprint / ex_holds_footprint / ex_reported_unchanged / explode_underreports / "
-           "explode_writes_source / explode_adds")
-PROOF_FILES = ["C14", "C14Run", "C14Special"]
+           "explode_writes_source / explode_adds / c2q_holds / c2q_stateless / c2q_again / c2q_converted_noop / c2q_remembered")
+PROOF_FILES = ["C14", "C14Run", "C14Special", "C14Cu2qu"]
 N = {"quick": 700, "thorough": 14000}
 RULE = ("every shipped filter class: decomposeComponents, decomposeTransformedComponents, flattenComponents, propagateAnchors, "
         "transformations, reverseContourDirection, sortContours, skipExportGlyphs (modelled in full, glyph content compared "
@@ -52,7 +52,14 @@ RULE = ("every shipped filter class: decomposeComponents, decomposeTransformedCo
         "replace_source_layers); after process(): a snapshot diff of every source font, and what every master's "
         "InterpolatedLayer returns for every glyph name before and after a forced refresh. Every step is modelled from the "
         "OBSERVED state before it. non-trivial = some step changed a glyph; 'P:last-master-unchanged' counts the steps where "
-        "the union over the masters matters (about 25% of the cases).")
+        "the union over the masters matters (about 25% of the cases). "
+        "HISTORIES ON ONE SOURCE FONT (n/16 further cases, tags 'c2q:*', 'again'): CubicToQuadraticFilter x rememberCurveType "
+        "(75% on) x font.lib / default-layer lib saying cubic / quadratic / an unknown type / nothing x glyph set = _GlyphSet "
+        "copy (has a lib of its own) / plain dict of independent copies (no lib; weight 2) / in place x 1-3 fonts per object; "
+        "in 70% of the separate-glyph-set cases the SAME object is run a second time on the SAME source font with new "
+        "copies of its glyphs ('again'), the reused and the new object alike. Observed in addition: the glyph set's own lib "
+        "entry afterwards, the outcome of the second run; the source snapshot covers font.lib and every layer's lib. "
+        "non-trivial there = a run that changed a glyph and was repeated.")
 ASSUMED = [
     "glyph-set keys equal glyph names (what _GlyphSet.from_layer builds)",
     "booleanOperations/pathops union, cu2qu, fontTools BoundsPen and math.tan are external: parameters/inputs of the model",
@@ -75,6 +82,10 @@ ASSUMED = [
     "rationals in the model, doubles in the code: a difference of 1 is accepted only where the model flags a rounding tie "
     "of otRound; ufoLib2 only (glyph truthiness = number of contours, Glyph.__eq__ = content + code points + lib)",
     "ExplodeColorLayerGlyphsFilter: glyph libs carry nothing but the color layer mapping (Glyph.__eq__ compares the lib)",
+    "CubicToQuadraticFilter.__call__: the curve-type entries of font.lib and of the glyph set's lib (absent lib = throw-away "
+    "dict) are inputs of the model, read from the real objects before the call; cu2qu itself is external",
+    "'again' (second run on the same source font with new copies) is a predicate on observations (Spec.holdsAgain); of the "
+    "model it is the theorem c2q_again, for the other classes C14_stateless - the model has no access to the font",
     "C14_source (the font is only read) holds of the model by construction (the model has no write access to the font); "
     "it is checked on the implementation by observation only",
 ]
@@ -184,6 +195,30 @@ def _gen_opaque(rng, mode, fname):
         opts = {"reverseDirection": rng.random() < 0.5}
     return {"kind": "seq", "filter": fname, "opts": opts, "inc": L.gen_include(rng, names), "fonts": fonts,
             "ulib": rng.choice(["ufoLib2", "defcon"]), "gsmode": rng.choice(["copy", "dict", "inplace"]), "exact": True}
+
+
+C2Q_KEY = "com.github.googlei18n.cu2qu.curve_type"
+
+
+def _gen_c2q(rng, mode):
+    """CubicToQuadraticFilter x rememberCurveType x what the font lib / the default layer's lib say about the curve
+    type x the kind of glyph set (a _GlyphSet copy has a lib of its own, a plain dict has none, None = in place)
+    x 'again': the same object run a second time on the SAME source font with new copies of its glyphs"""
+    case = _gen_opaque(rng, mode, "cubicToQuadratic")
+    case["opts"]["rememberCurveType"] = rng.random() < 0.75
+    case["gsmode"] = rng.choice(["copy", "dict", "dict", "inplace"])
+    case["again"] = case["gsmode"] != "inplace" and rng.random() < 0.7
+    for fd in case["fonts"]:
+        for where in ("lib", "layerlib"):
+            r = rng.random()
+            lib = fd.setdefault(where, {})
+            if r < 0.08:
+                lib[C2Q_KEY] = "cubic"
+            elif r < 0.18:
+                lib[C2Q_KEY] = "quadratic"
+            elif r < 0.23:
+                lib[C2Q_KEY] = "conic"                 # NotImplementedError
+    return case
 
 
 DC_OPTS = [{}, {}, {"margin": 40}, {"sidebearing": 100, "dots": 4}, {"dots": 1}, {"margin": 120, "sidebearing": 0}]
@@ -439,6 +474,10 @@ def gen(rng, n, mode):
     sub = random.Random(rng.getrandbits(64))
     for _ in range(max(8, n // 4)):
         yield PR.gen_case(sub, mode)
+    # CubicToQuadraticFilter(rememberCurveType=...) on one source font, twice (drawn last: the streams above are unchanged)
+    sub2 = random.Random(rng.getrandbits(64))
+    for _ in range(max(12, n // 16)):
+        yield _gen_c2q(sub2, mode)
 
 
 # ------------------------------------------------------------------------------------------------ running
@@ -502,14 +541,26 @@ def _invoke_raw(filt, fd, case):
     from ufo2ft.util import _GlyphSet
     fd = json.loads(json.dumps(fd))        # build() hands nested lib dicts to the font: never share them between runs
     font = build(fd, case["ulib"])
+    for k, v in fd.get("layerlib", {}).items():
+        font.layers.defaultLayer.lib[k] = v
     mode = case["gsmode"]
-    if mode == "copy":
-        gs = _GlyphSet.from_layer(font, copy=True)
-    elif mode == "dict":
-        other = build(json.loads(json.dumps(fd)), case["ulib"])
-        gs = {g.name: g for g in other if g.name not in case.get("drop", ())}
-    else:
-        gs = None
+
+    keep = []           # (defcon glyphs reach their font through a weak reference: keep the fonts of the copies alive)
+
+    def copies():
+        if mode == "copy":
+            return _GlyphSet.from_layer(font, copy=True)
+        if mode == "dict":
+            other = build(json.loads(json.dumps(fd)), case["ulib"])
+            keep.append(other)
+            return {g.name: g for g in other if g.name not in case.get("drop", ())}
+        return None
+    gs = copies()
+    c2q = None
+    if "rememberCurveType" in case.get("opts", {}):
+        # what CubicToQuadraticFilter.__call__ reads besides the glyphs: inputs of the model
+        c2q = {"remember": bool(case["opts"]["rememberCurveType"]), "font": str(font.lib.get(C2Q_KEY, "cubic")),
+               "layer": str(getattr(gs, "lib", {}).get(C2Q_KEY, "cubic"))}
     view = gs if gs is not None else {g.name: g for g in font.layers.defaultLayer}
     before = L.snap_glyphset(view)
     src0 = L.snap_font(font)
@@ -551,8 +602,20 @@ def _invoke_raw(filt, fd, case):
         obs["after"] = after
         if sp_obs is not None:
             obs["sp"] = sp_obs
+        if c2q is not None:
+            obs["gslib"] = str(gs.lib.get(C2Q_KEY, "cubic")) if hasattr(gs, "lib") else None
+    if case.get("again") and gs is not None and filt is not None and err not in RESOURCE_ERRS:
+        # the same object once more on the SAME source font, with new copies of its glyphs
+        gs2 = copies()
+        ag = {"err": None}
+        try:
+            ag["modified"] = sorted(str(x) for x in _timed(filt, font, gs2))
+            ag["after"] = L.snap_glyphset(gs2)
+        except Exception as e:
+            ag = {"err": type(e).__name__}
+        obs["again"] = ag
     cats = fd.get("lib", {}).get("public.openTypeCategories", {})
-    fin = {"sp": sp_in, "gs": before, "marks": sorted(k for k, v in cats.items() if v == "mark"),
+    fin = {"sp": sp_in, "c2q": c2q, "gs": before, "marks": sorted(k for k, v in cats.items() if v == "mark"),
            "bounds": L.bounds_oracle(before) if case["filter"] == "propagate" else [],
            "cap": rat(fd["info"].get("capHeight", 0)), "xh": rat(fd["info"].get("xHeight", 0))}
     return obs, fin
@@ -802,12 +865,22 @@ def run(case):
             tags.append("over-reported")
         if o["src"]:
             tags.append("src-touched")
+        if "again" in o:
+            tags.append("again")
+            if o["again"]["err"] is None and o["again"]["modified"]:
+                tags.append("again:changed>0")
+    for fin in fins:
+        if fin.get("c2q"):
+            tags.append("c2q:remember" if fin["c2q"]["remember"] else "c2q:plain")
+            tags.append("c2q:font=%s,layer=%s" % (fin["c2q"]["font"], fin["c2q"]["layer"]))
     for fin, o in zip(fins, calls):
         tags += L.branch_tags(fname, case["inc"], opts, fin["gs"], o)
     tags = list(dict.fromkeys(tags))
     nontrivial = False
     for i, (fin, ch) in enumerate(zip(fins, changed)):
         if ch and (len(ch) < len(fin["gs"]) or i > 0):
+            nontrivial = True
+        if ch and "again" in calls[i]:
             nontrivial = True
     req = {"op": "special" if fname in DECLARED else "seq",
            "in": {"filter": lean_filter, "opts": opts, "inc": inc, "separate": case["gsmode"] != "inplace",
@@ -859,6 +932,8 @@ def agree(req, rep):
             continue
         if mc["modified"] != oc["modified"]:
             return False
+        if oc.get("gslib") is not None and mc.get("gslib") != (oc["gslib"] if oc["gslib"] in ("cubic", "quadratic") else "other"):
+            return False                  # the glyph set's own lib afterwards
         ma, oa = mc["after"], oc["after"]
         if [k for k, _ in ma] != [k for k, _ in oa]:
             return False
@@ -1151,7 +1226,14 @@ LEVEL_TEXT = ("Proved for all inputs (Lean, no bound on glyph count / nesting / 
               "class has an interpolatable variant (C14_run_route); a missing filter in the FIRST master then makes the merged "
               "include dereference None (C14_run_noneFirst: AttributeError unless there is no glyph at all); "
               "perMasterLast_underreports: with 'the last filter's set' instead of the union a concrete step with a sparse last "
-              "master reports nothing and never refreshes.")
+              "master reports nothing and never refreshes. "
+              "CubicToQuadraticFilter.__call__ (Model/Spec/Props C14Cu2qu, all inputs): with rememberCurveType the lib "
+              "entries only gate the call - 'quadratic' in font.lib or in the glyph set's lib => nothing changed, nothing "
+              "reported (c2q_converted_noop), an unknown type => NotImplementedError (c2q_unknown), else BaseFilter.__call__; "
+              "every successful call satisfies footprint + reporting (c2q_holds), the object's history never shows "
+              "(c2q_stateless), a second call on the same source with new copies returns what the first returned "
+              "(c2q_again), and the only lib written is the glyph set's own, which turns a later call that is handed it "
+              "into a no-op (c2q_remembered).")
 LEVEL_NOTE = ("Trusted: Lean kernel + propext/Classical.choice/Quot.sound; correspondence of the hand-written model with "
               "filters/*.py, util.py and the fontTools pens is differential (bounded by the generators). removeOverlaps / "
               "cubicToQuadratic are modelled with the outline operation as a parameter; dottedCircle is modelled "
@@ -1174,4 +1256,9 @@ LEVEL_NOTE = ("Trusted: Lean kernel + propext/Classical.choice/Quot.sound; corre
               "PROPOSED_KNOWN_FINDING; a VIOLATION until it is listed in known_findings.json): PropagateAnchorsIFilter with an instantiator and "
               "inplace=False appends anchors to mixed intermediate glyphs of the SOURCE fonts before the first refresh. Also "
               "modelled as it is (not a C14 violation, reported): with no filter in the first UFO and the same convertible "
-              "filter in all others the step raises AttributeError.")
+              "filter in all others the step raises AttributeError. "
+              "Histories on one source font: the rememberCurveType gate is modelled (lib entries as inputs) and compared "
+              "exactly incl. the glyph set's lib entry afterwards; 'the source font (font.lib, layer libs, glyphs) is "
+              "untouched' and 'a second run of the same object on the same source font with new copies gives the same "
+              "outcome' are PREDICATES ON OBSERVATIONS (holdsSource / holdsAgain evaluated by the Lean driver) - the "
+              "second run exists only for the cubicToQuadratic stream, not for the other classes.")
